@@ -5,7 +5,7 @@
 // exec prints "> D <hex> badurl=<hex,..> badproto=<hex,..>" (the op annotated with the verdicts of
 // url.ParseRequestURI / http.ParseHTTPVersion the real processors gave, which the model takes as
 // inputs) followed by
-//        R ok cache=<n> [ev;ev;...] msgs=<delivered messages>
+//        R ok cache=<n> st=<parser state> [ev;ev;...] msgs=<delivered messages>
 //        R err=<code> [ev;...]
 //        dead                      (segment after an error: not fed)
 // Direct oracles (implementation only):
@@ -19,417 +19,22 @@ package main
 import (
 	"errors"
 	"fmt"
-	"io"
-	"net"
-	"net/http"
-	"sort"
+	"os"
+	"regexp"
 	"strconv"
 	"strings"
 	"time"
 
+	"harness/internal/hx"
 	"harness/internal/lp"
 
 	"github.com/lesismal/nbio/logging"
-	"github.com/lesismal/nbio/nbhttp"
 )
 
-type fakeConn struct{ closed bool }
-
-func (c *fakeConn) Read(b []byte) (int, error)         { return 0, nil }
-func (c *fakeConn) Write(b []byte) (int, error)        { return len(b), nil }
-func (c *fakeConn) Close() error                       { c.closed = true; return nil }
-func (c *fakeConn) LocalAddr() net.Addr                { return &net.TCPAddr{} }
-func (c *fakeConn) RemoteAddr() net.Addr               { return &net.TCPAddr{} }
-func (c *fakeConn) SetDeadline(t time.Time) error      { return nil }
-func (c *fakeConn) SetReadDeadline(t time.Time) error  { return nil }
-func (c *fakeConn) SetWriteDeadline(t time.Time) error { return nil }
-
-type capLogger struct{ panics int }
-
-func (l *capLogger) Debug(f string, v ...interface{}) {}
-func (l *capLogger) Info(f string, v ...interface{})  {}
-func (l *capLogger) Warn(f string, v ...interface{})  {}
-func (l *capLogger) Error(f string, v ...interface{}) {
-	if strings.Contains(f, "Parse failed") || strings.Contains(f, "failed") {
-		l.panics++
-	}
-}
-
-// rec wraps the real processor, recording every callback.
-type rec struct {
-	inner    nbhttp.Processor
-	evs      []string
-	msgs     []string
-	badURL   []string
-	badProto []string
-	held     int
-	maxHeld  int
-}
-
-func hx(s string) string { return lp.Hex([]byte(s)) }
-
-func (r *rec) OnMethod(p *nbhttp.Parser, m string) {
-	r.evs = append(r.evs, "method "+hx(m))
-	r.inner.OnMethod(p, m)
-}
-func (r *rec) OnURL(p *nbhttp.Parser, u string) error {
-	err := r.inner.OnURL(p, u)
-	if err != nil {
-		r.badURL = append(r.badURL, hx(u))
-	} else {
-		r.evs = append(r.evs, "url "+hx(u))
-	}
-	return err
-}
-func (r *rec) OnProto(p *nbhttp.Parser, s string) error {
-	err := r.inner.OnProto(p, s)
-	if err != nil {
-		r.badProto = append(r.badProto, hx(s))
-	} else {
-		r.evs = append(r.evs, "proto "+hx(s))
-	}
-	return err
-}
-func (r *rec) OnStatus(p *nbhttp.Parser, code int, s string) {
-	r.evs = append(r.evs, fmt.Sprintf("status %d %s", code, hx(s)))
-	r.inner.OnStatus(p, code, s)
-}
-func (r *rec) OnHeader(p *nbhttp.Parser, k, v string) {
-	r.evs = append(r.evs, "header "+hx(k)+" "+hx(v))
-	r.inner.OnHeader(p, k, v)
-}
-func (r *rec) OnContentLength(p *nbhttp.Parser, n int) {
-	r.evs = append(r.evs, "cl "+strconv.Itoa(n))
-	r.inner.OnContentLength(p, n)
-}
-func (r *rec) OnBody(p *nbhttp.Parser, d []byte) error {
-	err := r.inner.OnBody(p, d)
-	if err == nil {
-		r.held += len(d)
-		if r.held > r.maxHeld {
-			r.maxHeld = r.held
-		}
-		r.evs = append(r.evs, "body "+lp.Hex(d))
-	}
-	return err
-}
-func (r *rec) OnTrailerHeader(p *nbhttp.Parser, k, v string) {
-	r.evs = append(r.evs, "trailer "+hx(k)+" "+hx(v))
-	r.inner.OnTrailerHeader(p, k, v)
-}
-func (r *rec) OnComplete(p *nbhttp.Parser) {
-	r.evs = append(r.evs, "complete")
-	r.held = 0
-	r.inner.OnComplete(p)
-}
-func (r *rec) Close(p *nbhttp.Parser, err error) { r.inner.Clean(p) }
-func (r *rec) Clean(p *nbhttp.Parser)            { r.inner.Clean(p) }
-
-func hdrString(h http.Header) string {
-	ks := make([]string, 0, len(h))
-	for k := range h {
-		ks = append(ks, k)
-	}
-	sort.Strings(ks)
-	var sb strings.Builder
-	for _, k := range ks {
-		sb.WriteString(hx(k) + ":" + hx(strings.Join(h[k], "\x00")) + ",")
-	}
-	return sb.String()
-}
-
-func errCode(err error) int {
-	switch {
-	case errors.Is(err, net.ErrClosed):
-		return 1
-	case errors.Is(err, nbhttp.ErrInvalidMethod):
-		return 2
-	case errors.Is(err, nbhttp.ErrInvalidRequestURI):
-		return 3
-	case errors.Is(err, nbhttp.ErrLFExpected):
-		return 4
-	case errors.Is(err, nbhttp.ErrCRExpected):
-		return 5
-	case errors.Is(err, nbhttp.ErrInvalidCharInHeader):
-		return 6
-	case errors.Is(err, nbhttp.ErrInvalidHTTPStatusCode):
-		return 7
-	case errors.Is(err, nbhttp.ErrInvalidHTTPStatus):
-		return 8
-	case errors.Is(err, nbhttp.ErrInvalidChunkSize):
-		return 9
-	case errors.Is(err, nbhttp.ErrTrailerExpected):
-		return 10
-	case errors.Is(err, nbhttp.ErrTooLong):
-		return 11
-	}
-	s := err.Error()
-	switch {
-	case strings.HasPrefix(s, "too many transfer encodings"), strings.HasPrefix(s, "unsupported transfer encoding"):
-		return 12
-	case strings.HasPrefix(s, "bad Content-Length"), strings.HasPrefix(s, "length less than zero"), strings.HasPrefix(s, "length greater"):
-		return 13
-	case strings.HasPrefix(s, "bad trailer key"):
-		return 14
-	case strings.HasPrefix(s, "invalid trailer"):
-		return 15
-	case strings.HasPrefix(s, "chunk size"):
-		return 9
-	case strings.Contains(s, "strconv.Atoi"):
-		return 18
-	case strings.HasPrefix(s, "malformed HTTP version"):
-		return 16
-	}
-	// url.ParseRequestURI errors
-	if strings.HasPrefix(s, "parse ") {
-		return 17
-	}
-	return 100
-}
-
-// ---------------------------------------------------------------- generator
-
-func token(g *lp.Gen) string {
-	const a = "abcdefghijklmnopqrstuvwxyzABCDEFGHIJKLMNOPQRSTUVWXYZ0123456789-_.!~"
-	n := 1 + g.Intn(10)
-	b := make([]byte, n)
-	for i := range b {
-		b[i] = a[g.Intn(len(a))]
-	}
-	return string(b)
-}
-func value(g *lp.Gen) string {
-	const a = "abcdefghijklmnopqrstuvwxyz0123456789 ,;=/\"()-"
-	n := g.Intn(16)
-	b := make([]byte, n)
-	for i := range b {
-		b[i] = a[g.Intn(len(a))]
-	}
-	return strings.TrimSpace(string(b))
-}
-func body(g *lp.Gen, n int) string {
-	b := make([]byte, n)
-	for i := range b {
-		b[i] = byte(g.Intn(256))
-	}
-	return string(b)
-}
-
-func genMsg(g *lp.Gen, client bool) string {
-	var sb strings.Builder
-	if client {
-		sb.WriteString(g.Pick("HTTP/1.1", "HTTP/1.0") + " " + g.Pick("200 OK", "404 Not Found", "204 No Content", "500 Internal Server Error", "200 ", "301 Moved  Permanently") + "\r\n")
-	} else {
-		sb.WriteString(g.Pick("GET", "POST", "PUT", "DELETE", "HEAD", "OPTIONS", "PATCH", "get", "Post", "CONNECT", "TRACE") + " " + g.Pick("/", "/a/b?x=1", "*", "/echo", "/%41%zz", "/a%20b", "/x#frag") + " " + g.Pick("HTTP/1.1", "HTTP/1.0", "HTTP/1.1", "HTTP/2.0", "HTTP/1.x") + "\r\n")
-	}
-	nh := g.Intn(5)
-	for i := 0; i < nh; i++ {
-		switch g.Intn(8) {
-		case 0:
-			sb.WriteString("Host" + g.Pick(":", ": ") + g.Pick("example.com", "a.b:8080", "") + "\r\n")
-		case 1:
-			sb.WriteString(g.Pick("Connection", "connection") + ": " + g.Pick("close", "keep-alive", "Keep-Alive", "Close", "upgrade") + "\r\n")
-		default:
-			sb.WriteString(token(g) + g.Pick(":", ": ", ":  ", " :") + value(g) + g.Pick("", " ", "") + "\r\n")
-		}
-	}
-	switch g.Intn(4) {
-	case 0: // no body
-	case 1:
-		n := g.Intn(40)
-		if g.Chance(1, 12) {
-			n = g.PickInt(100, 300, 1000, 5000)
-		}
-		sb.WriteString(g.Pick("Content-Length", "content-length", "CONTENT-LENGTH") + ": " + strconv.Itoa(n) + g.Pick("", " ") + "\r\n\r\n" + body(g, n))
-		return sb.String()
-	default:
-		trailers := []string{}
-		if g.Chance(1, 2) {
-			nt := 1 + g.Intn(3)
-			for i := 0; i < nt; i++ {
-				trailers = append(trailers, "X-T"+strconv.Itoa(i))
-			}
-			sb.WriteString("Trailer: " + strings.Join(trailers, g.Pick(",", ", ")) + "\r\n")
-		}
-		sb.WriteString(g.Pick("Transfer-Encoding", "transfer-encoding") + ": " + g.Pick("chunked", "Chunked", " chunked") + "\r\n\r\n")
-		nc := g.Intn(4)
-		for i := 0; i < nc; i++ {
-			n := 1 + g.Intn(30)
-			if g.Chance(1, 15) {
-				n = g.PickInt(255, 256, 4096)
-			}
-			sb.WriteString(fmt.Sprintf(g.Pick("%x", "%X", "0%x"), n) + g.Pick("", ";ext=1", " ;a", ";abc") + "\r\n" + body(g, n) + "\r\n")
-		}
-		sb.WriteString("0\r\n")
-		for _, t := range trailers {
-			sb.WriteString(t + g.Pick(": ", ":") + g.Pick("v1", "abc def", "x") + "\r\n")
-		}
-		sb.WriteString("\r\n")
-		return sb.String()
-	}
-	sb.WriteString("\r\n")
-	return sb.String()
-}
-
-func mutate(g *lp.Gen, s string) string {
-	b := []byte(s)
-	if len(b) == 0 {
-		return s
-	}
-	switch g.Intn(9) {
-	case 0:
-		b[g.Intn(len(b))] = byte(g.Intn(256))
-	case 1:
-		i := g.Intn(len(b))
-		b = append(b[:i], b[i+1:]...)
-	case 2:
-		i := g.Intn(len(b))
-		b = append(b[:i], append([]byte{g.Pick("\r", "\n", " ", ":", "\x00", "5", "g")[0]}, b[i:]...)...)
-	case 3:
-		return strings.Replace(s, "\r\n", "\n", 1)
-	case 4:
-		return strings.Replace(s, "Content-Length: ", "Content-Length: "+g.Pick("-", "+", "x", "99999999999999999999", " ", "0x"), 1)
-	case 5:
-		return strings.Replace(s, "chunked", g.Pick("gzip", "chunked, gzip", "chunked\r\nTransfer-Encoding: chunked", "identity"), 1)
-	case 6:
-		return strings.Replace(s, "Trailer: ", "Trailer: "+g.Pick("Content-Length,", "Transfer-Encoding, ", "Trailer,", ","), 1)
-	case 7: // corrupt a chunk size line
-		return strings.Replace(s, "\r\n\r\n", "\r\n\r\n"+g.Pick("zz", "-1", "7fffffffffffffffff", "", " 5"), 1)
-	case 8: // truncate
-		return s[:g.Intn(len(s))]
-	}
-	return string(b)
-}
-
-func gen(g *lp.Gen) {
-	for cs := 0; cs < g.N; cs++ {
-		client := g.Chance(1, 4)
-		maxBody := 0
-		if g.Chance(1, 5) {
-			maxBody = 1 + g.Intn(60)
-		}
-		limit := 0
-		if g.Chance(1, 5) {
-			limit = 20 + g.Intn(200)
-		}
-		var stream string
-		if g.Chance(1, 25) { // pure random bytes
-			stream = body(g, 1+g.Intn(60))
-		} else {
-			nm := 1 + g.Intn(3)
-			for i := 0; i < nm; i++ {
-				m := genMsg(g, client)
-				if g.Chance(1, 3) {
-					m = mutate(g, m)
-				}
-				stream += m
-			}
-		}
-		cl := 0
-		if client {
-			cl = 1
-		}
-		g.P("C %d %d %d", cl, maxBody, limit)
-		rest := []byte(stream)
-		mode := g.Intn(4)
-		cut := -1
-		if mode == 3 && len(rest) > 1 { // a single cut position
-			cut = 1 + g.Intn(len(rest)-1)
-		}
-		for len(rest) > 0 {
-			n := len(rest)
-			switch mode {
-			case 0:
-				n = 1
-			case 1:
-				n = 1 + g.Intn(len(rest))
-			case 3:
-				if cut > 0 {
-					n = cut
-					cut = -1
-				}
-			}
-			if mode != 3 && n > 1 && g.Chance(1, 3) {
-				n = 1 + g.Intn(8)
-				if n > len(rest) {
-					n = len(rest)
-				}
-			}
-			g.P("D %s", lp.Hex(rest[:n]))
-			rest = rest[n:]
-		}
-	}
-}
-
-// ---------------------------------------------------------------- executor
-
-type sess struct {
-	client  bool
-	maxBody int
-	limit   int
-	p       *nbhttp.Parser
-	r       *rec
-	conn    *fakeConn
-	engine  *nbhttp.Engine
-}
-
-func newSess(client bool, maxBody, limit int) *sess {
-	engine := nbhttp.NewEngine(nbhttp.Config{ReadLimit: limit, MaxHTTPBodySize: maxBody})
-	if limit == 0 {
-		engine.ReadLimit = 0
-	}
-	s := &sess{client: client, maxBody: maxBody, limit: limit, engine: engine, conn: &fakeConn{}}
-	r := &rec{}
-	s.r = r
-	if client {
-		r.inner = nbhttp.NewClientProcessor(nil, func(res *http.Response, err error) {
-			if err != nil || res == nil {
-				r.msgs = append(r.msgs, "res-err")
-				return
-			}
-			var b []byte
-			if res.Body != nil {
-				b, _ = io.ReadAll(res.Body)
-			}
-			r.msgs = append(r.msgs, fmt.Sprintf("res{%s|%d|%s|%s|cl%d|%x|%s}", hx(res.Proto), res.StatusCode, hx(res.Status),
-				hdrString(res.Header), res.ContentLength, lp.Fnv(b), hdrString(res.Trailer)))
-		})
-	} else {
-		r.inner = nbhttp.NewServerProcessor()
-		engine.Handler = http.HandlerFunc(func(w http.ResponseWriter, req *http.Request) {
-			var b []byte
-			if req.Body != nil {
-				b, _ = io.ReadAll(req.Body)
-			}
-			r.msgs = append(r.msgs, fmt.Sprintf("req{%s|%s|%s|%s|%s|cl%d|te%s|%d:%x|%s|close%v}", hx(req.Method), hx(req.RequestURI), hx(req.Proto),
-				hx(req.Host), hdrString(req.Header), req.ContentLength, hx(strings.Join(req.TransferEncoding, ",")), len(b), lp.Fnv(b), hdrString(req.Trailer), req.Close))
-		})
-	}
-	s.p = nbhttp.NewParser(s.conn, engine, r, client, nil)
-	return s
-}
-
-type result struct {
-	errc int
-	evs  string
-	msgs string
-}
-
-func (s *sess) feed(seg []byte) result {
-	s.r.evs = nil
-	s.r.msgs = nil
-	err := s.p.Parse(append([]byte{}, seg...))
-	res := result{evs: strings.Join(s.r.evs, ";"), msgs: strings.Join(s.r.msgs, ";")}
-	if err != nil {
-		res.errc = errCode(err)
-	}
-	return res
-}
-
 func exec(e *lp.Exec) {
-	lg := &capLogger{}
+	lg := &hx.CapLogger{}
 	logging.SetLogger(lg)
-	var s *sess
+	var s *hx.Sess
 	dead := false
 	var segs [][]byte
 	var allEvs, allMsgs []string
@@ -443,31 +48,50 @@ func exec(e *lp.Exec) {
 		}
 		// direct oracle C06: whole vs segmented, on the implementation alone
 		if len(segs) > 0 && !limitHit {
-			w := newSess(s.client, s.maxBody, s.limit)
+			w := hx.NewSess(s.Client, s.MaxBody, s.Limit)
 			var whole []byte
 			for _, sg := range segs {
 				whole = append(whole, sg...)
 			}
-			r := w.feed(whole)
+			r := w.Feed(whole)
 			segEvs := mergeBodies(strings.Join(allEvs, ";"))
-			if mergeBodies(r.evs) != segEvs || r.errc != finalErr || r.msgs != strings.Join(allMsgs, ";") {
-				e.Oracle("c06-whole-vs-segmented", "whole: err=%d [%s] msgs=%s ; segmented: err=%d [%s] msgs=%s", r.errc, mergeBodies(r.evs), r.msgs, finalErr, segEvs, strings.Join(allMsgs, ";"))
+			if mergeBodies(r.Evs) != segEvs || r.Errc != finalErr || r.Msgs != strings.Join(allMsgs, ";") {
+				e.Oracle("c06-whole-vs-segmented", "whole: err=%d [%s] msgs=%s ; segmented: err=%d [%s] msgs=%s", r.Errc, mergeBodies(r.Evs), r.Msgs, finalErr, segEvs, strings.Join(allMsgs, ";"))
 			}
-			if s.maxBody > 0 && w.r.maxHeld > s.maxBody {
-				e.Oracle("c08-body", "held=%d max=%d", w.r.maxHeld, s.maxBody)
+			if s.MaxBody > 0 && w.R.MaxHeld > s.MaxBody {
+				e.Oracle("c08-body", "held=%d max=%d", w.R.MaxHeld, s.MaxBody)
+			}
+			// direct oracle C08: every line end the parser accepted is a full CR LF (byte-at-a-time run gives the
+			// exact extent of every completed message)
+			if len(whole) <= 4000 {
+				b := hx.NewSess(s.Client, s.MaxBody, s.Limit)
+				for i := range whole {
+					if r := b.Feed(whole[i : i+1]); r.Errc != 0 {
+						break
+					}
+				}
+				prev := 0
+				for k, end := range b.R.DoneAt {
+					if k < len(b.R.Seen) && end <= len(whole) && prev <= end {
+						if why := lineEnds(whole[prev:end], b.R.Seen[k]); why != "" {
+							e.Oracle("c08-line-endings", "%s in accepted message %q", why, trunc(string(whole[prev:end]), 200))
+						}
+					}
+					prev = end
+				}
 			}
 		}
-		if s.maxBody > 0 && s.r.maxHeld > s.maxBody {
-			e.Oracle("c08-body", "held=%d max=%d", s.r.maxHeld, s.maxBody)
+		if s.MaxBody > 0 && s.R.MaxHeld > s.MaxBody {
+			e.Oracle("c08-body", "held=%d max=%d", s.R.MaxHeld, s.MaxBody)
 		}
 		// after an error the parser must stay silent if fed again (engine closes; parser level check)
 		// (the engine's driver closes the parser on error: model that glue, then feed again)
 		if finalErr != 0 {
-			s.p.CloseAndClean(errors.New("parse error"))
-			s.r.evs, s.r.msgs = nil, nil
-			err := s.p.Parse([]byte("GET / HTTP/1.1\r\n\r\n"))
-			if err == nil || len(s.r.evs) > 0 || len(s.r.msgs) > 0 {
-				e.Oracle("c08-after-error", "after err=%d and close: Parse returned %v events [%s]", finalErr, err, strings.Join(s.r.evs, ";"))
+			s.P.CloseAndClean(errors.New("parse error"))
+			s.R.Evs, s.R.Msgs = nil, nil
+			err := s.P.Parse([]byte("GET / HTTP/1.1\r\n\r\n"))
+			if err == nil || len(s.R.Evs) > 0 || len(s.R.Msgs) > 0 {
+				e.Oracle("c08-after-error", "after err=%d and close: Parse returned %v events [%s]", finalErr, err, strings.Join(s.R.Evs, ";"))
 			}
 		}
 		e.Key(key.String(), nontrivial)
@@ -485,74 +109,122 @@ func exec(e *lp.Exec) {
 			cl, _ := strconv.Atoi(f[1])
 			mb, _ := strconv.Atoi(f[2])
 			lim, _ := strconv.Atoi(f[3])
-			s = newSess(cl == 1, mb, lim)
+			s = hx.NewSess(cl == 1, mb, lim)
 			dead, segs, allEvs, allMsgs, finalErr, limitHit, nontrivial = false, nil, nil, nil, 0, false, false
 			key.Reset()
 			fmt.Fprintf(&key, "%d/%v/%v|", cl, mb > 0, lim > 0)
-			lg.panics = 0
+			lg.Panics = 0
 			e.P("> %s", line)
 			e.P("ok")
 			e.Count("cases", map[bool]string{true: "client", false: "server"}[cl == 1])
 		case "D":
 			seg := lp.Unhex(f[1])
 			if dead {
+				// not fed to the segmented parser any more, but part of the byte stream the one-piece run gets
+				segs = append(segs, seg)
 				e.P("> %s badurl= badproto=", line)
 				e.P("dead")
 				continue
 			}
 			segs = append(segs, seg)
-			st0 := s.p.VerifState()
-			cache0 := s.p.VerifCacheLen()
+			st0 := s.P.VerifState()
+			cache0 := s.P.VerifCacheLen()
 			t0 := time.Now()
-			r := s.feed(seg)
+			r := s.Feed(seg)
 			if d := time.Since(t0); d > 2*time.Second {
 				e.Oracle("c08-slow", "Parse took %v on %d bytes", d, len(seg))
 			}
-			e.P("> D %s badurl=%s badproto=%s", f[1], strings.Join(s.r.badURL, ","), strings.Join(s.r.badProto, ","))
-			if lg.panics > 0 {
+			e.P("> D %s badurl=%s badproto=%s okproto=%s", f[1], strings.Join(s.R.BadURL, ","), strings.Join(s.R.BadProto, ","), strings.Join(s.R.OkProto, ","))
+			s.R.OkProto = nil
+			if lg.Panics > 0 {
 				e.Oracle("c08-panic", "Parse recovered from a panic")
-				lg.panics = 0
+				lg.Panics = 0
 			}
-			if r.evs != "" {
-				allEvs = append(allEvs, r.evs)
+			for _, v := range s.R.Framing {
+				e.Oracle("c08-framing-rejected", "%s", v)
 			}
-			if r.msgs != "" {
-				allMsgs = append(allMsgs, r.msgs)
+			s.R.Framing = nil
+			if r.Evs != "" {
+				allEvs = append(allEvs, r.Evs)
 			}
-			fmt.Fprintf(&key, "%d>%d,", st0, s.p.VerifState())
-			if cache0 > 0 || s.p.VerifCacheLen() > 0 {
+			if r.Msgs != "" {
+				allMsgs = append(allMsgs, r.Msgs)
+			}
+			fmt.Fprintf(&key, "%d>%d,", st0, s.P.VerifState())
+			if cache0 > 0 || s.P.VerifCacheLen() > 0 {
 				nontrivial = true
 			}
-			if r.errc != 0 {
+			if r.Errc != 0 {
 				dead = true
-				finalErr = r.errc
+				finalErr = r.Errc
 				nontrivial = true
-				if r.errc == 11 && cache0 > 0 && s.limit > 0 && cache0+len(seg) > s.limit {
+				if r.Errc == 11 && cache0 > 0 && s.Limit > 0 && cache0+len(seg) > s.Limit {
 					limitHit = true
 				}
-				fmt.Fprintf(&key, "E%d", r.errc)
-				e.Count("error_kinds", strconv.Itoa(r.errc))
-				e.P("R err=%d [%s] msgs=%s", r.errc, r.evs, r.msgs)
+				fmt.Fprintf(&key, "E%d", r.Errc)
+				e.Count("error_kinds", strconv.Itoa(r.Errc))
+				e.P("R err=%d [%s] msgs=%s", r.Errc, r.Evs, r.Msgs)
 				continue
 			}
-			cl := s.p.VerifCacheLen()
-			if s.limit > 0 {
-				bound := s.limit
+			cl := s.P.VerifCacheLen()
+			if s.Limit > 0 {
+				bound := s.Limit
 				if len(seg) > bound {
 					bound = len(seg)
 				}
 				if cl > bound {
-					e.Oracle("c08-retained", "cache=%d limit=%d data=%d", cl, s.limit, len(seg))
+					e.Oracle("c08-retained", "cache=%d limit=%d data=%d", cl, s.Limit, len(seg))
 				}
 			}
 			e.Count("parse_calls", "ok")
-			e.P("R ok cache=%d [%s] msgs=%s", cl, r.evs, r.msgs)
+			e.P("R ok cache=%d st=%d [%s] msgs=%s", cl, s.P.VerifState(), r.Evs, r.Msgs)
 		default:
 			e.P("> %s", line)
 			e.P("bad-op")
 		}
 	}
 	finish()
+}
+
+// lineEnds checks the line terminators of a message the parser accepted as complete: the header section ends with
+// CR LF CR LF, no header line contains a bare CR or LF, and a message without a Content-Length body ends in CR LF CR LF.
+var blankLine = regexp.MustCompile("\r\n *\r\n")
+var chunkedEnd = regexp.MustCompile("\r\n[^\r]*\r\n$")
+
+func lineEnds(msg []byte, seen hx.Seen) string {
+	ms := string(msg)
+	// the blank line: CR LF, possibly preceded by spaces (nbhttp skips spaces where a header line may start)
+	loc := blankLine.FindStringIndex(ms)
+	if loc == nil {
+		return "no CR LF CR LF after the header section"
+	}
+	he, hl := loc[0], loc[1]-loc[0]
+	lines := strings.Split(ms[:he], "\r\n")
+	for _, l := range lines[1:] {
+		if strings.ContainsAny(l, "\r\n") {
+			return "bare CR or LF inside a header line"
+		}
+	}
+	chunked := len(seen.Header["Transfer-Encoding"]) > 0
+	switch {
+	case chunked:
+		// the final CR LF follows a CR LF; nbhttp skips non-token bytes where a trailer line may start
+		if !chunkedEnd.MatchString(ms) {
+			return "chunked message does not end with CR LF CR LF"
+		}
+	case seen.CL <= 0:
+		if len(ms) != he+hl {
+			return "message without body does not end at the blank line"
+		}
+	}
+	return ""
+}
+
+func trunc(s string, n int) string {
+	if len(s) > n {
+		return s[:n] + "..."
+	}
+	return s
 }
 
 // mergeBodies canonicalises an event stream for the whole-vs-segmented oracle: consecutive body
@@ -573,4 +245,10 @@ func mergeBodies(evs string) string {
 	return strings.Join(out, ";")
 }
 
-func main() { lp.Main(gen, exec) }
+func main() {
+	if len(os.Args) > 1 && os.Args[1] == "facts" {
+		facts()
+		return
+	}
+	lp.Main(gen, exec)
+}
